@@ -7,7 +7,9 @@ import GcArena.Model.Derive
       case  <name> <ty> <val>     predict NEEDS_TRACE and the reported pointers of a value
       check <name> <ty>           predict only whether the type's derive compiles
 
-      ty      := L | G | W | GS | WS | OS | ON | (P i) | (C con ty*) | (A decl ty*)
+      ty      := L | G | W | GS | WS | OS | ON | (P i) | (R s|n ty) | (C con ty*) | (A decl ty*)
+                 (R s T) `&'static T`, (R n T) a reference with any other lifetime (`&'gc T`, `&'a T`,
+                 `&'gc mut T`): `Collect` iff the lifetime is `'static` and `T: 'static`; never traced
                  L pointer-free `Collect` leaf, G `Gc`, W `GcWeak`, GS / WS `Gc<'gc, Self>` /
                  `GcWeak<'gc, Self>` (same meaning as G / W), OS / ON type without `Collect`
                  impl that is / is not `'static`, (P i) i-th type parameter of the enclosing decl
@@ -110,6 +112,8 @@ partial def tyOf : Sexp → Option Ty
   | .atom "OS" => some (.opaque true)
   | .atom "ON" => some (.opaque false)
   | .list [.atom "P", i] => (natOf i).map Ty.param
+  | .list [.atom "R", .atom "s", t] => (tyOf t).map (Ty.ref true)
+  | .list [.atom "R", .atom "n", t] => (tyOf t).map (Ty.ref false)
   | .list (.atom "C" :: .atom c :: args) => do
       let c ← conOf c
       let args ← args.mapM tyOf
